@@ -8,7 +8,7 @@ from checks.c01 import GLPK_LOOSE, DSDP_LOOSE
 
 @st.composite
 def case_strategy(draw):
-    kind = draw(st.sampled_from(["pinf"] * 4 + ["dinf"] * 4 + ["rand", "rand"]))
+    kind = draw(st.sampled_from(["pinf"] * 4 + ["dinf"] * 4 + ["rand", "rand", "feas", "feas"]))
     kinds = draw(st.sampled_from(["l", "l", "lq", "lq", "ls", "ls", "lqs", "lqs", "q", "s"]))
     prob = draw(gc.cone_case(kind=kind, kinds=kinds))
     cfg = draw(runlp.config(prob["dims"], prob["p"]))
